@@ -294,3 +294,18 @@ func MonitorIgnore(roots ...interface{}) {}
 // LiveGoroutines returns the number of goroutines spawned on this path that
 // have not finished (engine only; natively 0).
 func LiveGoroutines() int { return 0 }
+
+// RegisterListener makes the next net.Listen of the code under test return l
+// (engine only: the environment's listening socket is the harness's).
+func RegisterListener(l interface{}) {}
+
+// RegisterDatagrams makes net.ListenUDP return a socket whose ReadFromUDP
+// delivers payloads[i] from address from[i], one per call, then blocks until
+// the socket is closed (engine only).
+func RegisterDatagrams(payloads [][]byte, from []string) {}
+
+// DatagramsRead is the number of registered datagrams read so far.
+func DatagramsRead() int { return 0 }
+
+// UDPSocketClosed is the number of Close calls on the stub UDP socket.
+func UDPSocketClosed() int { return 0 }
